@@ -154,7 +154,13 @@ def build(d, reverse=False):
     for cn in d["corder"]:
         mk(cn)
     order = list(reversed(d["corder"])) if reverse else d["corder"]
-    return definitions.XtcePacketDefinition([conts[c] for c in order], root_container_name=d["root"])
+    main = definitions.XtcePacketDefinition([conts[c] for c in order], root_container_name=d["root"])
+    # container objects may serve several definitions (a reduced export next to the full one): building another definition from
+    # some of the same objects must leave this one as it is
+    definitions.XtcePacketDefinition([conts[d["corder"][0]]], root_container_name=d["corder"][0])
+    if len(d["corder"]) > 2:
+        definitions.XtcePacketDefinition([conts[d["corder"][-1]], conts[d["corder"][1]]], root_container_name=d["corder"][-1])
+    return main
 
 
 def share_equal_parts(dobj):
